@@ -883,8 +883,11 @@ where
             Err(None)
         } else {
             let truncated_state = self.state ^ (State::one() << valid_bits);
-            self.bulk
-                .extend_from_iter(bit_array_to_chunks_truncated(truncated_state).rev())?;
+            // Emit exactly `valid_bits / Word::BITS` words (least significant first), including
+            // any zero words right below the marker bit.
+            self.bulk.extend_from_iter(
+                (0..valid_bits / Word::BITS).map(|i| (truncated_state >> (i * Word::BITS)).as_()),
+            )?;
             Ok(self.bulk)
         }
     }
